@@ -11,10 +11,12 @@ import (
 	"fmt"
 	"os"
 	"path/filepath"
+	"runtime/debug"
 	"sort"
 	"strconv"
 	"strings"
 	"sync"
+	"sync/atomic"
 	"time"
 
 	"verif/internal/core"
@@ -396,6 +398,7 @@ func runMutants(repo string, ruleIDs []string, perRule int, seed int) []mutantRe
 				res.Status, res.Detail = "skipped", "mutant does not load: "+firstLine(err.Error())
 				return
 			}
+			defer releaseProgram(mp)
 			for _, o := range j.r.Run(mp) {
 				if o.Status == core.Violated && strings.Contains(o.Key, j.m.Expect) {
 					res.Status, res.Detail = "fired", o.Key
@@ -492,6 +495,7 @@ func runCorpus(repo, verif string, pr *rules.Property, limit int, seed int, base
 				res.Status, res.Detail = "skipped", "patched tree does not load: "+firstLine(err.Error())
 				return
 			}
+			defer releaseProgram(mp)
 			var violated []string
 			for _, id := range pr.Rules {
 				r := rules.Get(id)
@@ -529,4 +533,15 @@ func runCorpus(repo, verif string, pr *rules.Property, limit int, seed int, base
 	}
 	wg.Wait()
 	return out
+}
+
+// releaseProgram drops the caches that keep a checked variant of the tree alive and hands the memory back: a
+// thorough run loads more than a hundred variants (mutants, recorded changes, refactorings) in one process.
+var releaseCount int64
+
+func releaseProgram(p *core.Program) {
+	rules.Release(p)
+	if atomic.AddInt64(&releaseCount, 1)%4 == 0 {
+		debug.FreeOSMemory()
+	}
 }
